@@ -12,6 +12,7 @@ import (
 	"verif/harness/core"
 	"verif/harness/env"
 	"verif/harness/reply"
+	"verif/harness/sim"
 	"verif/harness/spsim"
 )
 
@@ -145,6 +146,10 @@ var schemeTricks = []string{
 	"javascript&colon;alert(1)", "&#106;avascript:alert(1)", "&#x6A;avascript:alert(1)", "https://sp.example/\"onmouseover=\"alert(1)", "https://sp.example/'><script>alert(1)</script>",
 	"x:y", "#", "?a=b:c", "https://sp.example/acs?t=12:30", "\x01javascript:alert(1)", "javascript\x00:alert(1)", "https://sp.example/a b", "https://sp.example/`x`",
 	"https://sp.example/<b>", "https://sp.example/%zz", "https://sp.example/%41", "https://sp.example/ü", "https://sp.example/\xff\xfe", "https://sp.example/{{.}}", "feed:javascript:alert(1)", "jar:http://x!/", "about:blank", "file:///etc/passwd",
+	// hierarchical forms of script schemes: they parse as absolute URLs with a host
+	"javascript://sp.example/%0Aalert(document.domain)", "javascript://sp.example/%0aalert(1)//", "JAVASCRIPT://sp.example:443/%0Dalert(1)", "javascript://user@sp.example/?%0Aalert(1)",
+	"data://sp.example/text/html,<script>alert(1)</script>", "vbscript://sp.example/%0Amsgbox(1)", "javascript:///%0Aalert(1)", "javascript://%0Aalert(1)",
+	"com.example.app://saml/acs", "myapp://callback", "blob://sp.example/1",
 }
 
 func hostileRelay(rng *rand.Rand) string {
@@ -230,9 +235,10 @@ func c17Judge(r *core.Run, wl string, idx int, class, skel string, d *reply.Deco
 		}
 		r.Count("actions_url", 1)
 	}
+	// "javascript:/data: style": schemes a browser resolves to script or to a document in the embedding origin.
+	// Other schemes (ftp, app links such as com.example.app://) are not what the statement forbids.
 	switch s := browserScheme(action); s {
-	case "", "http", "https", "mailto":
-	default:
+	case "javascript", "vbscript", "livescript", "mocha", "data":
 		viol("dangerous_action_scheme", fmt.Sprintf("form action %q has the scheme %q", clipS(action, 200), s))
 	}
 }
@@ -272,8 +278,32 @@ func c17Callback(r *core.Run, idx int, rng *rand.Rand) {
 		sc.Done = false // error replies use the same page
 	}
 	e := sc.build()
+	fault := ""
+	if idx%5 == 2 {
+		// a storage operation of the callback fails: whatever page is produced is still exactly one form (or none)
+		ops := []string{"AuthRequestByID", "GetEntityIDByAppID", "SetUserinfoWithUserID", "GetResponseSigningKey"}
+		op := ops[rng.Intn(len(ops))]
+		kind := sim.FaultError
+		if op == "GetResponseSigningKey" {
+			kind = []string{sim.FaultError, sim.FaultNilRecord, sim.FaultKeyNoCert, sim.FaultCertNoKey, sim.FaultEmptyCert}[rng.Intn(5)]
+		}
+		if op == "SetUserinfoWithUserID" && rng.Intn(2) == 0 {
+			kind = sim.FaultPartial
+		}
+		fault = op + "/" + kind
+		e.W.Plan = func(tag, o string, occ int) string {
+			if o == op {
+				return kind
+			}
+			return ""
+		}
+		r.Count("callback_pages_with_storage_fault", 1)
+	}
 	call := sc.callback(e)
 	class := fmt.Sprintf("callback|done=%v", sc.Done)
+	if fault != "" {
+		class += "|fault=" + fault
+	}
 	desc := map[string]any{"relay_state": clipS(sc.S.RelayState, 400), "relay_len": len(sc.S.RelayState), "acs": sc.S.ACS}
 	r.Eval(fmt.Sprintf("%s|%s|%d", class, core.Hex(sc.S.ACS), len(sc.S.RelayState)))
 	if call.Panic != "" {
